@@ -221,6 +221,11 @@ Theorem C08_scaled_moreau : forall a prox pcc, 0 < a -> moreau prox pcc -> morea
 Proof. exact scaled_moreau. Qed.
 Print Assumptions C08_scaled_moreau.
 
+(* ... and for the scale 0 (the zero functional), given prox_0 = id of the scaled functional: before the repair the code returned nan here *)
+Theorem C08_scaled_moreau_zero : forall prox pcc, (forall x, prox 0 x = x) -> moreau (sc_prox 0 prox) (sc_pcc 0 pcc).
+Proof. exact scaled_moreau_zero. Qed.
+Print Assumptions C08_scaled_moreau_zero.
+
 Theorem C08_scaled_moreau_complex : forall a prox pcc, 0 < a -> cmoreau prox pcc -> cmoreau (sc_prox a prox) (csc_pcc a pcc).
 Proof. exact scaled_cmoreau. Qed.
 Print Assumptions C08_scaled_moreau_complex.
